@@ -4,6 +4,7 @@ use crate::common::*;
 use crate::ringstream::f64_exact;
 use crate::rng::Rng;
 use rsdd::builder::bdd::RobddBuilder;
+use rsdd::builder::BottomUpBuilder;
 use rsdd::builder::cache::AllIteTable;
 use rsdd::repr::{BddPtr, PartialModel, VarLabel, WmcParams};
 use rsdd::util::semirings::{ExpectedUtility, RealSemiring};
@@ -19,7 +20,92 @@ fn pm_str(m: &PartialModel, n: usize) -> String {
         .collect()
 }
 
+/// `kind=mapwide`: marginal MAP in a manager with more than 64 variables, on a function of five
+/// of them (labels on both sides of 64, one pair `x`, `x + 64`); the oracle enumerates only the
+/// variables the function mentions (all others carry normalised weights)
+fn opt_wide_line(rng: &mut Rng) -> String {
+    let big_n = 66 + rng.below(15) as usize;
+    let x = rng.below((big_n - 64) as u64) as usize; // x + 64 < big_n
+    let mut small: Vec<usize> = (0..16).filter(|v| *v != x).collect();
+    rng.shuffle(&mut small);
+    let involved: Vec<usize> = vec![small[0], small[1], x, x + 64, 64 + ((x + 1) % (big_n - 64))];
+    let mut involved_d = involved.clone();
+    involved_d.sort();
+    involved_d.dedup();
+    // query: a small variable first, then the large label (and sometimes a third one)
+    let mut q: Vec<usize> = vec![small[0], x + 64];
+    if rng.coin() {
+        q.push(involved[4]);
+        q.dedup();
+    }
+    let cubes: Vec<Vec<(usize, bool)>> = (0..2 + rng.below(3))
+        .map(|_| {
+            let mut c = Vec::new();
+            for v in involved_d.iter() {
+                if rng.chance(2, 3) {
+                    c.push((*v, rng.coin()));
+                }
+            }
+            c
+        })
+        .collect();
+    let w: Vec<(usize, u64, u64)> = involved_d
+        .iter()
+        .map(|v| {
+            if q.contains(v) {
+                let l = rng.below(9);
+                (*v, l, rng.below(9))
+            } else {
+                let h = rng.below(9);
+                (*v, 8 - h, h)
+            }
+        })
+        .collect();
+    let head = format!(
+        "opt kind=mapwide n={} vars={} cubes={} q={} w={}",
+        big_n,
+        csv(&involved_d),
+        cubes
+            .iter()
+            .map(|c| c.iter().map(|(v, p)| format!("{}{}", if *p { "p" } else { "n" }, v)).collect::<Vec<_>>().join("."))
+            .collect::<Vec<_>>()
+            .join(";"),
+        csv(&q),
+        w.iter().map(|(v, l, h)| format!("{}:{}:{}", v, l, h)).collect::<Vec<_>>().join(",")
+    );
+    let r = guarded(|| {
+        rsdd::verif_hooks::set_table_capacity(None);
+        let b = RobddBuilder::<AllIteTable<BddPtr>>::new_with_linear_order(big_n);
+        let mut f = b.false_ptr();
+        for c in cubes.iter() {
+            let mut cube = b.true_ptr();
+            for (v, p) in c.iter() {
+                cube = b.and(cube, b.var(VarLabel::new_usize(*v), *p));
+            }
+            f = b.or(f, cube);
+        }
+        let mut m = HashMap::new();
+        for v in 0..big_n {
+            m.insert(VarLabel::new_usize(v), (RealSemiring(0.5), RealSemiring(0.5)));
+        }
+        for (v, l, h) in w.iter() {
+            m.insert(VarLabel::new_usize(*v), (RealSemiring(*l as f64 / 8.0), RealSemiring(*h as f64 / 8.0)));
+        }
+        let params = WmcParams::new(m);
+        let vars: Vec<VarLabel> = q.iter().map(|&x| VarLabel::new_usize(x)).collect();
+        let (v1, m1) = f.marginal_map(&vars, big_n, &params);
+        let (v2, m2) = f.bb(&vars, big_n, &params);
+        format!("d={} mm={}:{} bb={}:{}", bdd_raw_string(f), f64_exact(v1), pm_str(&m1, big_n), f64_exact(v2.0), pm_str(&m2, big_n))
+    });
+    format!("{} => {}", head, r.unwrap_or_else(|e| e))
+}
+
 pub fn opt_lines(rng: &mut Rng, maxvars: usize, maxops: usize) -> Vec<String> {
+    // one case in eight is a wide-manager line (its own random draws come first, so the other
+    // seven are generated as before only from a different point of the stream)
+    if rng.chance(1, 8) {
+        return vec![opt_wide_line(rng)];
+    }
     let n = rng.range(2, maxvars as u64) as usize;
     let nops = rng.range(6, maxops as u64) as usize;
     let prog = gen_program(rng, n, nops, false);
